@@ -69,6 +69,7 @@ deriving Repr, DecidableEq
 
 structure CppSt where
   mode : CppMode := .code
+  pend : Bool := false
   depth : Nat := 0
   head : Str := []
   openHead : Str := []
@@ -95,27 +96,33 @@ def cppStep (st : CppSt) (c : Char) : CppSt :=
     | 0 => { st with head := c :: st.head }
     | _ + 1 => { st with body := c :: st.body }
 
-/-- one character in a mode other than `code`, or a character of code that starts neither a
-comment nor a string -/
-def cppStep1 (st : CppSt) (c : Char) : CppSt :=
+/-- One character. `pend` remembers a `/` (code), `*` (block comment) or `\\` (string) seen just
+before, so that `//`, `/*`, `*/` and escapes are recognised without look-ahead. -/
+def cppChar (st : CppSt) (c : Char) : CppSt :=
   match st.mode with
   | .lineComment => if c = '\n' then { st with mode := .code } else st
-  | .blockComment => st
-  | .str => if c = '"' then { st with mode := .code } else st
-  | .code => if c = '"' then { st with mode := .str } else cppStep st c
+  | .blockComment =>
+    if st.pend && c = '/' then { st with mode := .code, pend := false }
+    else { st with pend := c = '*' }
+  | .str =>
+    if st.pend then { st with pend := false }
+    else if c = '\\' then { st with pend := true }
+    else if c = '"' then { st with mode := .code }
+    else st
+  | .code =>
+    if st.pend then
+      if c = '/' then { st with mode := .lineComment, pend := false }
+      else if c = '*' then { st with mode := .blockComment, pend := false }
+      else
+        let st' := cppStep { st with pend := false } '/'
+        if c = '"' then { st' with mode := .str } else cppStep st' c
+    else if c = '/' then { st with pend := true }
+    else if c = '"' then { st with mode := .str }
+    else cppStep st c
 
-def cppScan (st : CppSt) : Str → CppSt
-  | [] => st
-  | [c] => cppStep1 st c
-  | c :: rest@(d :: cs) =>
-    match st.mode with
-    | .blockComment => if c = '*' && d = '/' then cppScan { st with mode := .code } cs else cppScan st rest
-    | .str => if c = '\\' then cppScan st cs else cppScan (cppStep1 st c) rest
-    | .lineComment => cppScan (cppStep1 st c) rest
-    | .code =>
-      if c = '/' && d = '/' then cppScan { st with mode := .lineComment } cs
-      else if c = '/' && d = '*' then cppScan { st with mode := .blockComment } cs
-      else cppScan (cppStep1 st c) rest
+def cppScan (st : CppSt) (s : Str) : CppSt :=
+  let r := s.foldl cppChar st
+  if r.mode == .code && r.pend then cppStep { r with pend := false } '/' else r
 
 /-- the last access label of a class body is `private:` (input: reversed body) -/
 def lastLabelPrivate : Str → Bool
@@ -395,9 +402,30 @@ def expectedList (base : Base) (bs : List Block) (key : String) : List Str :=
   (lookup key (baseLists base)).getD [] ++
     (fieldKey.filter fun fk => fk.2 = key).flatMap fun fk => bs.flatMap fun b => b.get fk.1
 
+/-- every template variable the executor's replacement dictionary defines -/
+def infoKeys : List String :=
+  [ "query_code", "class_decl", "book_code", "body_include_files", "header_include_files",
+    "private_members", "instance_initialization", "initialize_lines", "ctor_lines", "link_libraries",
+    "job_option_additions" ]
+
 def expectedInfo (base : Base) (bs : List Block) : Info :=
-  { scalars := []
-    lists := ((baseLists base).map (·.1) ++ fieldKey.map (·.2)).eraseDups.map fun k => (k, expectedList base bs k) }
+  { scalars := [], lists := infoKeys.map fun k => (k, expectedList base bs k) }
+
+/-- the layouts of a package's templates, by file name (the witness the theorems supply) -/
+def witOf (files : List (String × Template)) : List (String × Layout) :=
+  files.filterMap fun nt => (flatten nt.2).map fun L => (nt.1, L)
+
+/-- every documented file has a template, the template has a layout, and the layout's slots are
+the documented ones at the documented places (input-independent; `decide`d on the generated
+constants) -/
+def docsOk (files : List (String × Template)) (docs : List FileDoc) : Bool :=
+  docs.all fun d =>
+    match lookup d.file files with
+    | none => false
+    | some t =>
+      match flatten t with
+      | none => false
+      | some L => matchDocs d.slots (annot L)
 
 /-! ## one run of the package generator -/
 
